@@ -401,10 +401,11 @@ def run(ctx):
                             try:
                                 if ti == 0:
                                     cur = TEXT_A
-                                    for k in range(ops * 2):
+                                    for k in range(ops * 2 + 1):
                                         cur = TEXT_B if cur == TEXT_A else TEXT_A
                                         ev_ab.recompile(cur)
                                         shared["swaps"] += 1
+                                    shared["final"] = (ev_ab, cur)
                                     shared["stop"] = True
                                 elif ti in (1, 2):
                                     k = 0
@@ -488,7 +489,7 @@ def run(ctx):
                             def work():
                                 start.wait()
                                 cur = TEXT_A
-                                for k in range(ops * 3):
+                                for k in range(ops * 3 + 1):  # odd: the race ends on the other text
                                     try:
                                         if workload == "W3":
                                             cur = text_b if cur == TEXT_A else TEXT_A
@@ -507,6 +508,7 @@ def run(ctx):
                                                 shared["swaps"] += 1
                                     except Exception as e:  # noqa: BLE001
                                         errors[ti].append((k, cur, type(e).__name__, str(e)[:160]))
+                                shared["final"] = (ev, cur)
                                 shared["stop"] = True
                             return work
 
@@ -526,6 +528,21 @@ def run(ctx):
                         return work
                 finished = run_threads([make(ti) for ti in range(nthreads)], timeout=240)
                 inter.stop()
+                if finished and shared.get("final") and not any(errors):
+                    # the last recompile has returned (its thread is joined): from now on *every* thread - this one, which
+                    # built the evaluator, and one that never touched it - sees that experiment and nothing else
+                    fev, ftext = shared["final"]
+                    want_final = ref[ftext]["panel"]
+                    views = {"constructing-thread": [im.call(fev, e) for e in PANEL]}
+                    box = []
+                    th = threading.Thread(target=lambda: box.append([im.call(fev, e) for e in PANEL]), daemon=True)
+                    th.start()
+                    th.join(60)
+                    if box:
+                        views["fresh-thread"] = box[0]
+                    for who, got in views.items():
+                        ok = got == want_final
+                        logs[0].append((10**9, "after-last-recompile-returned:" + who, ftext, ok, None if ok else (got[:3], want_final[:3])))
                 total_overlap += ov.overlapped_calls
                 total_calls += ov.calls
                 ctx.count("parse_source/calls", ov.calls)
